@@ -25,6 +25,7 @@ func init() {
 			ruleOpenLog(r)    // a label that sanitises to container_id never supplies the id the log is requested for
 			ruleKeywordLookupExact(r)
 			ruleParserOptionsReachLexer(r)
+			ruleScannerIdentRune(r)
 		},
 	})
 }
